@@ -1580,6 +1580,19 @@ class TypedDictValue(GenericValue):
                                 children=[can_assign],
                             )
                         bounds_maps.append(can_assign)
+            if self.extra_keys is not None:
+                # Keys that only the other TypedDict declares are extra keys for us.
+                for key, their_entry in other.items.items():
+                    if key in self.items:
+                        continue
+                    can_assign = self.extra_keys.can_assign(their_entry.typ, ctx)
+                    if isinstance(can_assign, CanAssignError):
+                        return CanAssignError(
+                            f"Type for key {key} is incompatible with extra keys type"
+                            f" {self.extra_keys}",
+                            children=[can_assign],
+                        )
+                    bounds_maps.append(can_assign)
             if not self.extra_keys_readonly and other.extra_keys_readonly:
                 return CanAssignError(f"Extra keys are readonly in {other}")
             if self.extra_keys is not None:
